@@ -448,7 +448,11 @@ func (wf *Workflow[I, O]) compile(ctx context.Context, options *graphCompileOpti
 				paths = append(paths, splitFieldPath(path))
 
 				// a static value has to fit the field it is set on, like a mapped value
-				fieldType, below, err := checkAndExtractFieldType(splitFieldPath(path), wf.g.nodes[n.key].inputType())
+				inputType := wf.g.getNodeInputType(n.key) // also defined for END
+				if inputType == nil {
+					continue // a pass-through node whose type is not known yet
+				}
+				fieldType, below, err := checkAndExtractFieldType(splitFieldPath(path), inputType)
 				if err != nil {
 					return nil, fmt.Errorf("static value check failed for node %s, path %s: %w", n.key, path, err)
 				}
